@@ -116,6 +116,9 @@ def run(ctx):
             neg = [c for c in flat if c.op == "call" and B.cname(c) == "Neg::neg"]
             okp = any(c.op == "param" and c.a[1] == "w" for c in flat) and any(c.op == "param" and c.a[1] == "u" for c in flat) and len(neg) == 1 and len(comps) == 2
             ctx.ob("E5.valid", "valid/equation", okw and okp, "pairing input = %s (want {(w, -G), (compute_w(u, v, dst), u)})" % show(strip_sites(T_), 6), where=where(f))
+    from . import equations as EQ
+
+    EQ.check_pairing_equation(ctx, "E5.equation", P, "BlsSignCrypt::valid", {("w", "G"): -1, ("cw", "u"): 1}, "e(w, -G) * e(compute_w(u, v, dst), u)")
     # seal, open and the validity report of one scheme agree on the tag: under scheme V every entry point hands V's
     # signature tag to the construction (an honest ciphertext of scheme V must report valid and decrypt)
     from . import spec as SP
